@@ -333,6 +333,26 @@ Definition set_item (c i v : val) : res val :=
         match seq_payload v with
         | Some cv => do rows' <- col_set rows (Z.to_nat z) cv; Ok (VArr rows')
         | None => Stuck "set_item: column value" end
+      else match a with
+           | VInt y => if (y <? 0)%Z then Stuck "negative index"
+                       else match nth_error rows (Z.to_nat y) with
+                            | Some r => match seq_payload r with
+                                        | Some l => match list_set_total l (Z.to_nat z) v with
+                                                    | Some l' => match list_set rows (Z.to_nat y) (retag r l') with Some rows' => Ok (VArr rows') | None => Exc "IndexError" end
+                                                    | None => Exc "IndexError" end
+                                        | None => Exc "IndexError" end
+                            | None => Exc "IndexError" end
+           | _ => Stuck "set_item" end
+  | VArr rows, VTuple [VInt y; sl] =>                         (* m[i, :] = row *)
+      if (y <? 0)%Z then Stuck "negative index"
+      else if is_full_slice sl then
+        match seq_payload v, nth_error rows (Z.to_nat y) with
+        | Some rv, Some r => match seq_payload r with
+                             | Some l => if Nat.eqb (length l) (length rv)
+                                         then match list_set rows (Z.to_nat y) (retag r rv) with Some rows' => Ok (VArr rows') | None => Exc "IndexError" end
+                                         else Exc "ValueError"
+                             | None => Exc "IndexError" end
+        | _, _ => Stuck "set_item: row value" end
       else Stuck "set_item"
   | _, _ => Stuck "set_item"
   end.
@@ -401,6 +421,14 @@ Definition builtin (name : string) (args : list val) (kws : list (string * val))
   match name with
   | "slice" => Some (pure_ (match args with [lo; hi] => Ok (mk_slice lo hi) | _ => Stuck "slice arity" end) w)
   | "np.maximum" => Some (match args with [a; b] => pure2 xmax a b w | _ => Exc "TypeError" end)
+  | "np.minimum" => Some (match args with [a; b] => pure2 (fun x y => xneg (xmax (xneg x) (xneg y))) a b w | _ => Exc "TypeError" end)
+  | "np.zeros" => Some (pure_ (match args with
+                     | [VInt n] => Ok (VArr (repeat (VNum (Fin 0)) (Z.to_nat n)))
+                     | [sh] => match seq_payload sh with
+                               | Some [VInt n] => Ok (VArr (repeat (VNum (Fin 0)) (Z.to_nat n)))
+                               | Some [VInt n; VInt m] => Ok (VArr (repeat (VList (repeat (VNum (Fin 0)) (Z.to_nat m))) (Z.to_nat n)))
+                               | _ => Stuck "np.zeros: shape" end
+                     | _ => Stuck "np.zeros" end) w)
   | "np.log10" => Some (match args with [a] => do r <- map1 3 (m_log true) (ul a) w; Ok ((if is_seq a then arr (fst r) else fst r), snd r) | _ => Exc "TypeError" end)
   | "np.log" => Some (match args with [a] => do r <- map1 3 (m_log false) (ul a) w; Ok ((if is_seq a then arr (fst r) else fst r), snd r) | _ => Exc "TypeError" end)
   | "np.exp" => Some (match args with [a] => do r <- map1 3 (fun x w => Ok (xexp x, w)) (ul a) w; Ok ((if is_seq a then arr (fst r) else fst r), snd r) | _ => Exc "TypeError" end)
@@ -416,7 +444,22 @@ Definition builtin (name : string) (args : list val) (kws : list (string * val))
   | "sum" => Some (match args with [a] => do l <- as_list a; vsum_l l w | _ => Exc "TypeError" end)
   | "np.zeros_like" => Some (pure_ (match args with [a] => do l <- as_list a; Ok (VArr (map (const_like (VNum (Fin 0))) l)) | _ => Exc "TypeError" end) w)
   | "np.ones_like" => Some (pure_ (match args with [a] => do l <- as_list a; Ok (VArr (map (const_like (VNum (Fin 1))) l)) | _ => Exc "TypeError" end) w)
-  | "np.mean" => Some (match args with [a] => do l <- as_list a; np_mean (flatten2 l) w | _ => Stuck "np.mean: arity" end)
+  | "np.mean" => Some (match args with
+                      | [a] => do l <- as_list a;
+                               match field_get "axis" kws with
+                               | Some (VInt 0) =>          (* column means of a 2-d array *)
+                                   do t <- np_transpose (VArr l);
+                                   match t with
+                                   | VArr cols => (fix go (cols : list val) (w : world) : res (val * world) :=
+                                                     match cols with
+                                                     | [] => Ok (VArr [], w)
+                                                     | c :: r => do cl <- as_list c; do mw <- np_mean cl w; do rw <- go r (snd mw);
+                                                                 match fst rw with VArr ms => Ok (VArr (fst mw :: ms), snd rw) | _ => Stuck "np.mean axis" end
+                                                     end) cols w
+                                   | _ => Stuck "np.mean axis" end
+                               | Some _ => Stuck "np.mean: axis"
+                               | None => np_mean (flatten2 l) w end
+                      | _ => Stuck "np.mean: arity" end)
   | "np.average" => Some (match args with
                          | [a] => do l <- as_list a;
                                   match field_get "weights" kws with
@@ -667,9 +710,12 @@ Fixpoint eval (fuel : nat) (e : expr) (ρ : env) (w : world) {struct fuel} : res
       match fst vw with
       | VObj cls fs => match field_get a fs with
                        | Some v => Ok (v, snd vw)
-                       | None => match methods G cls a with
+                       | None => match methods G cls ("@" ++ a) with
+                                 | Some c => call f c (Some (fst vw)) [] [] (snd vw)        (* a @property: attribute access calls it *)
+                                 | None =>
+                                 match methods G cls a with
                                  | Some _ => Ok (VObj "<bound method>" [("self", fst vw); ("cls", VStr cls); ("name", VStr a)], snd vw)
-                                 | None => Exc "AttributeError" end end
+                                 | None => Exc "AttributeError" end end end
       | VArr _ | VList _ => if String.eqb a "T" then do t <- np_transpose (fst vw); Ok (t, snd vw) else Stuck "attr of an array"
       | VMod "np" => Ok (match a with "inf" => VNum PosInf | "pi" => VNum (Fin PI) | _ => VMod ("np." ++ a) end, snd vw)
       | VMod m => match globals G (m ++ "." ++ a) with
